@@ -278,8 +278,12 @@ func (s *Sorts) structDT(t types.Type, u *types.Struct) *Datatype {
 	s.dts[name] = dt
 	for i := 0; i < u.NumFields(); i++ {
 		f := u.Field(i)
+		fname := f.Name()
+		if fname == "_" {
+			fname = fmt.Sprintf("_%d", i)
+		}
 		dt.Fields = append(dt.Fields, DTField{
-			Name: quote(strings.Trim(name, "|") + "." + f.Name()),
+			Name: quote(strings.Trim(name, "|") + "." + fname),
 			Sort: s.SortOf(f.Type()),
 			Go:   f.Type(),
 			Raw:  f.Name(),
